@@ -444,7 +444,7 @@ def run(ctx):
     nmax = 512 if quick else 4096
 
     # ---- transform-length rule against the model (integers, exact) ----------------------------------------------------
-    for npts in list(range(1, 130)) + [255, 256, 257, 511, 512, 513, 1023, 1024, 1025, 4684, 2**20 - 1, 2**20, 2**20 + 1]:
+    for npts in list(range(1, 130)) + [255, 256, 257, 511, 512, 513, 1023, 1024, 1025, 4684, 2**20 - 1, 2**20, 2**20 + 1] + gen.hint_sizes(ctx, lo=2, hi=2 ** 22, cap=12):     # (+ source hints: lengths around every new integer constant)
         for p in range(0, 4):
             N = call_impl(lambda npts=npts, p=p: 2 ** int(np.ceil(np.log2(npts)) + p))
             ctx.corr('n_factor rule', f"nfactor|{npts}|{p}|-", N,
@@ -500,9 +500,12 @@ def run(ctx):
     n_random = 40 if quick else 300
     hi = 300 if quick else 1500
     specials = [127, 128, 129, 255, 256, 257] + ([] if quick else [511, 512, 513, 1023, 1024, 1025])
+    # source hints: record lengths around every new integer constant, time steps at / around every new float constant (and its reciprocal)
+    specials = specials + gen.hint_sizes(ctx, lo=71, hi=4000, cap=8, halves=True)
+    hv_dt = gen.hint_values(ctx, 1e-4, 2.0, cap=10, maps=(lambda c: c, lambda c: 1 / c))
     for i in range(n_random):
         npts = specials[i] if i < len(specials) else gen.log_int(rng, 71, hi)
-        dt = pick_dt(rng, i)
+        dt = pick_dt(rng, i) if not (hv_dt and i % 3 == 1) else hv_dt[(i // 3) % len(hv_dt)]
         kind, v = record(rng, npts, dt)
         modes = modes_for(rng, npts, nmax)
         pick = [('default',)] + rng.sample(modes[1:], min(len(modes) - 1, 2 if quick else 4))
@@ -663,8 +666,10 @@ def x2_large(ctx):
     cases = [(6000, ('default',)), (20001, ('unpadded',)), (40000, ('p2', 1))] if quick else \
         [(6000, ('default',)), (20001, ('unpadded',)), (40000, ('p2', 1)), (5003, ('unpadded',)), (8192, ('default',)), (8193, ('default',)), (60000, ('n', 60000)),
          (30000, ('n', 45001)), (16384, ('p2', 3)), (59999, ('unpadded',)), (12000, ('n', 10000))]
+    # source hints: record lengths AND transform lengths around every new integer constant; time steps at / around every new float constant
+    cases = cases + [(m, mode) for m in gen.hint_sizes(ctx, lo=4001, hi=300000, cap=5, halves=True) for mode in (('unpadded',), ('default',), ('n', m + 1))]
     for npts, mode in cases:
-        dt = rng.choice([0.01, 0.005, 0.02, 0.0078125])
+        dt = rng.choice([0.01, 0.005, 0.02, 0.0078125] + gen.hint_values(ctx, 1e-4, 2.0, cap=8, maps=(lambda c: c, lambda c: 1 / c)))
         N = expected_N(npts, mode)
         P = N // 2
         k0 = rng.randint(P // 2, P - 3) if N >= 2 ** 16 else rng.randint(P // 50 + 2, P - 3)      # the dominant tone sits in the upper half of the bins of the longest transforms
